@@ -28,7 +28,7 @@ def failing_handlers(ctx):
 def run(ctx):
     with vlib.Lock():
         ok_go = ctx.phase(ctx.build_go)
-        ok_gen = ok_go and ctx.phase(ctx.regen, ["consts", "super", "announce", "skeleton"])
+        ok_gen = ok_go and ctx.phase(ctx.regen, (lambda base: base + [p for p in vlib.gen_parts_of(MODULE) if p not in base])(["consts", "super", "announce", "skeleton"]))
         proved = False
         if ok_gen:
             proved = ctx.phase(ctx.prove, MODULE) and ctx.phase(ctx.audit, MODULE)
